@@ -106,6 +106,7 @@ extern struct vf_input vfin;
 #undef calloc
 #undef realloc
 #undef strdup
+#undef strndup
 #undef free
 static void *ini_malloc(size_t n) {
     void *p = malloc(n);
@@ -125,6 +126,14 @@ static char *ini_strdup(const char *s) {
     for (size_t i = 0; i < n; i++) p[i] = s[i];
     return p;
 }
+static char *ini_strndup(const char *s, size_t n) {
+    size_t l = 0;
+    while (l < n && s[l] != '\0') l++;
+    char *p = (char *)ini_malloc(l + 1);
+    for (size_t i = 0; i < l; i++) p[i] = s[i];
+    p[l] = '\0';
+    return p;
+}
 static void ini_free(void *p) {
     if (p != NULL) vf_live_blocks--;
     free(p);
@@ -132,6 +141,7 @@ static void ini_free(void *p) {
 #define malloc ini_malloc
 #define calloc ini_calloc
 #define strdup ini_strdup
+#define strndup ini_strndup
 #define free ini_free
 /* realloc: not used on the paths under test (only qlisttbl_getmulti); left to libc */
 
